@@ -69,8 +69,17 @@ def detrend_case(rec, seedt, tier):
     desc = {"kind": "detrend", "seed": list(seedt), "p": p, "N": N, "series": kind, "tier": tier}
     rec.case(desc, nontrivial=True)
     xin = np.array(x, copy=True)
+    form = str(rng.choice(["array", "array", "list", "np-int-order", "strided"]))
+    desc["form"] = form
+    xarg, parg = x, p
+    if form == "list":
+        xarg = np.asarray(x).tolist()
+    elif form == "np-int-order":
+        parg = np.int64(p)
+    elif form == "strided":
+        xarg = np.repeat(np.asarray(x), 2)[::2]
     try:
-        r = np.asarray(dsp.polynomial_detrend(x, order=p))
+        r = np.asarray(dsp.polynomial_detrend(xarg, order=parg))
     except Exception as e:
         rec.violation("detrend-raises", f"polynomial_detrend(N={N}, order={p}, {kind}) raised "
                                         f"{type(e).__name__}: {e}")
@@ -224,8 +233,17 @@ def rms_case(rec, seedt):
     desc = {"kind": "rms", "seed": list(seedt), "n": n, "asd": akind, "band": bkind}
     rec.case(desc, nontrivial=n >= 2)
     band = None if a is None else (float(a), float(b))
+    form = str(rng.choice(["arrays", "arrays", "lists", "band-list", "band-array"]))
+    desc["form"] = form
+    farg, aarg, barg = f, asd, band
+    if form == "lists":
+        farg, aarg = f.tolist(), asd.tolist()
+    elif form == "band-list" and band is not None:
+        barg = [band[0], band[1]]
+    elif form == "band-array" and band is not None:
+        barg = np.array(band)
     try:
-        got = float(dsp.integral_rms(f, asd, band))
+        got = float(dsp.integral_rms(farg, aarg, barg))
     except Exception as e:
         rec.violation("integral_rms-raises", f"{type(e).__name__}: {e} ({desc})")
         return
